@@ -147,6 +147,45 @@ def molecule_spectrum(elenergies, modes):
     return trunc, exact, gbound, box
 
 
+def molecule_hamiltonian(elenergies, modes, sigma=1):
+    """Element-wise reference of the Hamiltonian of one molecule in the number basis of the
+    UNdisplaced oscillators: block diagonal over the electronic states; the block of state e is
+
+        E_e 1  +  sum_k  1 x ... x h_k(e) x ... x 1 ,      h_k(e) = truncated_oscillator(
+                                                             w_k, sigma d_k(e), N_k(e))
+
+    i.e. the SUM over the modes of one-mode displaced-oscillator Hamiltonians, every one
+    acting as the identity on all other modes (Kronecker products, C order of the quantum
+    number tuples = itertools.product order).  sigma = -1 mirrors every coordinate.
+    Returns (labels [(e, tuple of quantum numbers)], H)."""
+    labels, blocks = [], []
+    for e, en in enumerate(elenergies):
+        dims = [int(md["n"][e]) for md in modes]
+        size = 1
+        for n in dims:
+            size *= n
+        B = float(en) * numpy.eye(size)
+        for k, md in enumerate(modes):
+            h = truncated_oscillator(float(md["w"]), sigma * float(md["d"][e]), dims[k])
+            left = 1
+            for n in dims[:k]:
+                left *= n
+            right = 1
+            for n in dims[k + 1:]:
+                right *= n
+            B = B + numpy.kron(numpy.eye(left), numpy.kron(h, numpy.eye(right)))
+        blocks.append(B)
+        for vs in itertools.product(*[range(n) for n in dims]):
+            labels.append((e, tuple(vs)))
+    ntot = len(labels)
+    H = numpy.zeros((ntot, ntot))
+    off = 0
+    for B in blocks:
+        H[off:off + B.shape[0], off:off + B.shape[0]] = B
+        off += B.shape[0]
+    return labels, H
+
+
 def _lowest_ladder(en, modes, e, count):
     """count lowest values of en + sum_j w_j (k_j + 1/2), k_j >= 0."""
     if not modes:
